@@ -48,6 +48,11 @@ class Resident:
                 if name not in self.table_aliases and vals and all(self._is_table_value(v) for v in vals):
                     self.table_aliases.add(name)
                     changed = True
+        # a loop variable over a tuple of tables (`for table in (self.states, self.context_states):`) names a table
+        for lp in ast.walk(fn):
+            if isinstance(lp, ast.For) and isinstance(lp.target, ast.Name) and isinstance(lp.iter, (ast.Tuple, ast.List)) and \
+                    lp.iter.elts and all(self._is_table_value(e) for e in lp.iter.elts):
+                self.table_aliases.add(lp.target.id)
         changed = True
         while changed:
             changed = False
